@@ -594,17 +594,31 @@ package pipeline
 //@ func isEmptyValue
 //@   assigns nothing
 
+// The JSON object is built from exactly the union of the inline map and the
+// tagged ("outline") fields, each key once; a tagged field wins over an inline
+// entry of the same name; the inline map itself is only read (C03, C19).
 //@ func inlineFriendlyMarshalJSON
 //@   assigns nothing
+//@   check [union] ret1 == nil ==> (forall k string :: {has(allFields, k)} has(allFields, k) == (has(inlineFields, k) || has(outlineFields, k)))
+//@   check [outline-wins] ret1 == nil ==> (forall k string :: {allFields[k]} has(outlineFields, k) ==> allFields[k] == outlineFields[k])
+//@   check [inline-kept] ret1 == nil ==> (forall k string :: {allFields[k]} has(inlineFields, k) && !has(outlineFields, k) ==> allFields[k] == inlineFields[k])
+//@   check [bytes] ret1 == nil ==> jsonOf(ret0, box(map[string]any, allFields))
 //@   loop 0
 //@     assigns *outlineFields
 //@     invariant [idx] 0 <= $idx && outlineFields != nil && fresh(outlineFields)
 //@   loop 1
 //@     assigns *allFields
-//@     invariant [fresh] allFields != nil && fresh(allFields)
+//@     invariant [fresh] allFields != nil && fresh(allFields) && allFields != outlineFields
+//@     invariant [copied] forall k string :: {has(allFields, k)} has(allFields, k) == visited(k)
+//@     invariant [values] forall k string :: {allFields[k]} visited(k) ==> allFields[k] == inlineFields[k]
+//@     invariant [vis] forall k string :: {visited(k)} visited(k) ==> has(inlineFields, k)
 //@   loop 2
 //@     assigns *allFields
-//@     invariant [fresh] allFields != nil && fresh(allFields)
+//@     invariant [fresh] allFields != nil && fresh(allFields) && allFields != outlineFields
+//@     invariant [union] forall k string :: {has(allFields, k)} has(allFields, k) == (has(inlineFields, k) || visited(k))
+//@     invariant [outline-wins] forall k string :: {allFields[k]} visited(k) ==> allFields[k] == outlineFields[k]
+//@     invariant [inline-kept] forall k string :: {allFields[k]} has(inlineFields, k) && !visited(k) ==> allFields[k] == inlineFields[k]
+//@     invariant [vis] forall k string :: {visited(k)} visited(k) ==> has(outlineFields, k)
 
 //@ func (*Pipeline).MarshalJSON
 //@   assigns nothing
@@ -615,17 +629,24 @@ package pipeline
 //@ func (*Cache).MarshalJSON
 //@   requires c != nil
 //@   assigns nothing
+//@   ensures [disabled] c.Disabled && ret1 == nil ==> jsonOf(ret0, box(bool, false))
 //@ func (*MatrixAdjustment).MarshalJSON
 //@   assigns nothing
 //@ func (*WaitStep).MarshalYAML
 //@   requires s != nil
 //@   assigns nothing
+//@   ensures [scalar] s.Scalar != "" ==> ret1 == nil && ret0 == box(string, s.Scalar)
+//@   ensures [bare] s.Scalar == "" && len(s.Contents) == 0 ==> ret1 == nil && ret0 == box(string, "wait")
+//@   ensures [contents] s.Scalar == "" && len(s.Contents) != 0 ==> ret1 == nil && ret0 == box(map[string]any, s.Contents)
 //@ func (*WaitStep).MarshalJSON
 //@   requires s != nil
 //@   assigns nothing
 //@ func (*InputStep).MarshalYAML
 //@   requires s != nil
 //@   assigns nothing
+//@   ensures [scalar] s.Scalar != "" ==> ret1 == nil && ret0 == box(string, s.Scalar)
+//@   ensures [empty] s.Scalar == "" && len(s.Contents) == 0 ==> ret1 != nil
+//@   ensures [contents] s.Scalar == "" && len(s.Contents) != 0 ==> ret1 == nil && ret0 == box(map[string]any, s.Contents)
 //@ func (*InputStep).MarshalJSON
 //@   requires s != nil
 //@   assigns nothing
@@ -634,6 +655,7 @@ package pipeline
 //@ func (*UnknownStep).MarshalYAML
 //@   requires u != nil
 //@   assigns nothing
+//@   ensures [verbatim] ret1 == nil && ret0 == u.Contents
 //@ func (*UnknownStep).MarshalJSON
 //@   requires u != nil
 //@   assigns nothing
@@ -702,12 +724,29 @@ package pipeline
 //@     assigns **maw
 //@     invariant [idx] 0 <= $idx && *maw != nil
 
+// plugins written as one mapping: one plugin per live entry, in the mapping's order (C08)
+//@ define pmap(o) := unbox(o, *ordered.Map[string,any])
 //@ func (*Plugins).UnmarshalOrdered
 //@   requires p != nil && (typeis(o, []any) ==> mapsWF(unbox(o, []any))) &&
-//@       (typeis(o, *ordered.Map[string,any]) && unbox(o, *ordered.Map[string,any]) != nil ==> ordered.wf(unbox(o, *ordered.Map[string,any])))
-//@   assigns everything
+//@       (typeis(o, *ordered.Map[string,any]) && pmap(o) != nil ==> ordered.wf(pmap(o)))
+//@   assigns *p, (*p)[..]
+//@   ensures [null] o == nil ==> ret == nil && len(*p) == 0
+//@   ensures [mapping] typeis(o, *ordered.Map[string,any]) && pmap(o) != nil ==> ret == nil && len(*p) == old(len(*p)) + len(pmap(o).index) &&
+//@       (forall x int :: {pmap(o).items[x]} 0 <= x && x < len(pmap(o).items) && !pmap(o).items[x].deleted ==>
+//@           (*p)[old(len(*p)) + ordered.live(pmap(o).items, x)] != nil && (*p)[old(len(*p)) + ordered.live(pmap(o).items, x)].Source == pmap(o).items[x].Key)
+//@   ensures [kept] forall i int :: {(*p)[i]} 0 <= i && i < old(len(*p)) && o != nil ==> (*p)[i] == old((*p)[i])
 //@   loop 0
-//@     invariant [idx] 0 <= $idx && $idx <= len(o)
+//@     assigns *p, (*p)[..]
+//@     invariant [idx] 0 <= $idx && $idx <= len(o) && len(*p) >= old(len(*p)) && (arr(*p) == atloop(arr(*p)) || loopfresh(*p))
+//@     invariant [kept] forall i int :: {(*p)[i]} 0 <= i && i < old(len(*p)) ==> (*p)[i] == old((*p)[i])
+//@   loop UnmarshalOrdered$1/Range.0
+//@     assigns *p, (*p)[..]
+//@     invariant [idx] 0 <= $idx && $idx <= len(m.items) && len(*p) == atloop(len(*p)) + ordered.live(m.items, $idx) && (arr(*p) == atloop(arr(*p)) || loopfresh(*p))
+//@     invariant [order] forall x int :: {m.items[x]} 0 <= x && x < $idx && !m.items[x].deleted ==>
+//@         (*p)[atloop(len(*p)) + ordered.live(m.items, x)] != nil && (*p)[atloop(len(*p)) + ordered.live(m.items, x)].Source == m.items[x].Key
+//@     invariant [kept] forall i int :: {(*p)[i]} 0 <= i && i < atloop(len(*p)) ==> (*p)[i] == atloop((*p)[i])
+//@     decreases len(m.items) - $idx
+
 //@ func (*MatrixSetup).UnmarshalOrdered
 //@   requires ms != nil
 //@   assigns everything
